@@ -1,9 +1,12 @@
 #!/bin/bash
-# usage: tryseed.sh <prop> <patch.diff> [tier]  -- applies the change to /repo, runs the check, reverts.
+# usage: tryseed.sh <prop> <patch.diff> [tier]
+# Runs the check against a scratch worktree of /repo HEAD with the change applied (GOSYM_REPO); /repo itself is not touched,
+# evidence and /verif/replays are not written. The worktree is removed afterwards.
 cd /verif
-git -C /repo status --short | grep -q . && { echo "/repo not clean"; exit 2; }
-git -C /repo apply $2 || exit 2
-GOSYM_REPLAY_DIR=/tmp/tryseed-replays GOSYM_NO_EVIDENCE=1 timeout 3600 ./check.sh $1 ${3:-quick} > /tmp/tryseed-$$.log 2>&1; rc=$?
-git -C /repo checkout -- . ; git -C /repo clean -fdq pkg cmd 2>/dev/null
+wt=/tmp/tryseed-wt-$$
+git -C /repo worktree add --detach $wt HEAD >/dev/null 2>&1 || { echo "worktree failed"; exit 2; }
+trap 'git -C /repo worktree remove --force $wt >/dev/null 2>&1; rm -rf /tmp/tryseed-$$.log /tmp/tryseed-replays-$$' EXIT
+git -C $wt apply $2 || exit 2
+GOSYM_REPO=$wt GOSYM_REPLAY_DIR=/tmp/tryseed-replays-$$ GOSYM_NO_EVIDENCE=1 timeout 3600 ./check.sh $1 ${3:-quick} > /tmp/tryseed-$$.log 2>&1; rc=$?
 grep -E "^(\[|VIOLATION|OK|INCONCLUSIVE|ENGINE|KNOWN|  assert|  panic|  race|  deadlock|  lock|    native)" /tmp/tryseed-$$.log | cut -c1-260 | tail -${TAILN:-25}
-echo "exit=$rc"; rm -rf /tmp/tryseed-$$.log /tmp/tryseed-replays
+echo "exit=$rc"
